@@ -234,6 +234,7 @@ func (e *env) lateAlive(phase string, cs []*lateConn) bool {
 		if l.gone() {
 			e.tl.add("LATE  %s: closed by the program before it spoke (%.0f ms after it was opened)", l.label, ms(time.Since(l.opened)))
 			e.res.count("late_"+phase+"_conn_closed_before_it_spoke", 1)
+			e.res.count("late_"+phase+"_attempts", 1) // its client was about to speak
 			for _, o := range cs {
 				o.Close()
 			}
@@ -420,6 +421,7 @@ func (e *env) lateShell(idx int, kind string, cs []*lateConn) {
 		reqs = []rq{{cs[0], "GET /i/" + id + " HTTP/1.1\r\nHost: fake.shell\r\n\r\n"}}
 	}
 	for _, q := range reqs {
+		res.count("late_after_shell_attempts", 1)
 		if err := q.l.send(crs.Bound, q.req); err != nil {
 			e.tl.add("LATE  %s: request could not be sent: %v", q.l.label, err)
 			res.count("late_after_shell_requests_not_sent", 1)
